@@ -1,8 +1,290 @@
-//! engine `scalar` (stub: to be filled in)
-use crate::util::Tr;
-use serde_json::{json, Value};
+//! C07: seeded random expression histories on registers of Dyadic and Scalar4 values; every
+//! operation is logged with the raw stored parts (sign, 64-bit mantissa as base-2^15 limbs,
+//! exponent, approx flag) of its result.  TLC (mc/Trace_Scalar) recomputes the exact value of
+//! every register with arbitrary-precision arithmetic written in TLA+ (spec/BigNat, spec/Dyadic)
+//! and evaluates the property's predicates.
 
-#[allow(unused_variables)]
+use crate::util::{arg_num, guarded, Tr};
+use approx::AbsDiffEq;
+use num::complex::Complex;
+use num::{Float, One, Rational64, Zero};
+use quizx::phase::Phase;
+use quizx::scalar::{Dyadic, FromPhase, Scalar4, Sqrt2};
+use rand::rngs::StdRng;
+use rand::Rng;
+use serde_json::{json, Value};
+use std::cmp::Ordering;
+
+fn limbs(mut m: u64) -> Vec<u64> {
+    let mut out = vec![];
+    while m > 0 {
+        out.push(m & 0x7fff);
+        m >>= 15;
+    }
+    out
+}
+fn raw(d: &Dyadic) -> Value {
+    let (neg, m, e, ap) = d.verif_raw();
+    json!({"neg": neg, "m": limbs(m), "e": e, "ap": ap})
+}
+fn raw4(s: &Scalar4) -> Value {
+    Value::Array(s.verif_coeffs().iter().map(raw).collect())
+}
+fn int_json(v: i64) -> Value {
+    json!({"neg": v < 0, "m": limbs(v.unsigned_abs())})
+}
+/// a finite double as exact sign / mantissa / exponent; "fin": false for NaN and infinities
+fn f64_json(f: f64) -> Value {
+    if !f.is_finite() {
+        return json!({"fin": false, "neg": false, "m": [], "e": 0});
+    }
+    let (m, e, s) = f.integer_decode();
+    json!({"fin": true, "neg": s < 0, "m": limbs(m), "e": e})
+}
+
+fn interesting_i64(r: &mut StdRng) -> i64 {
+    match r.random_range(0..10) {
+        0 => 0,
+        1 => 1,
+        2 => -1,
+        3 => i64::MAX,
+        4 => (1i64 << 32) - 1,
+        5 => (1i64 << 32) + 1,
+        6 => -((1i64 << 62) + 1),
+        7 => r.random_range(-1000..1000),
+        8 => 1i64 << r.random_range(0..62),
+        _ => r.random::<i64>() >> r.random_range(0..40),
+    }
+}
+fn interesting_f64(r: &mut StdRng) -> f64 {
+    match r.random_range(0..9) {
+        0 => 0.7,
+        1 => 0.9,
+        2 => 0.0,
+        3 => -55.13,
+        4 => 13e-60,
+        5 => 1.0 / 3.0,
+        6 => (r.random::<f64>() - 0.5) * 2f64.powi(r.random_range(-60..60)),
+        7 => -(r.random::<f64>()),
+        _ => r.random::<f64>(),
+    }
+}
+
+fn dyadic_history(r: &mut StdRng, tr: &mut Tr, len: usize) -> usize {
+    const NR: usize = 6;
+    let mut regs: Vec<Dyadic> = vec![Dyadic::zero(); NR];
+    tr.group();
+    tr.emit(json!({"k": "begin", "machine": "dyadic", "regs": NR}));
+    let mut n = 0;
+    // every third history starts with full-width mantissas: (2^32 - 1)(2^32 + 1) = 2^64 - 1 in register 1,
+    // small exact integers next to it, so that additions carry out of the 64-bit mantissa
+    let directed = r.random_range(0..3) == 0;
+    for step in 0..len {
+        let (mut a, mut b, mut t) = (r.random_range(0..NR), r.random_range(0..NR), r.random_range(0..NR));
+        let mut c = if step < NR { 0 } else { r.random_range(0..100) };
+        let mut forced: Option<(i64, i32)> = None;
+        if directed {
+            match step {
+                0 => forced = Some(((1i64 << 32) - 1, 0)),
+                1 => forced = Some(((1i64 << 32) + 1, 0)),
+                2 => forced = Some((1, r.random_range(-2..3))),
+                3 => {
+                    (a, b, t, c) = (0, 1, 0, 50);
+                }
+                4 | 5 => {
+                    (a, b, t, c) = (0, 2, step - 1, 50);
+                }
+                _ => {}
+            }
+            if forced.is_some() {
+                (t, c) = (step, 0);
+            }
+        }
+        let ev = if c < 14 {
+            let (v, e) = forced.unwrap_or((interesting_i64(r), r.random_range(-90..90)));
+            match guarded(|| Dyadic::new(v, e)) {
+                Ok(d) => {
+                    regs[t] = d;
+                    json!({"k": "d", "op": "new", "v": int_json(v), "exp": e, "r": t + 1, "res": "ok", "out": raw(&d)})
+                }
+                Err(m) => json!({"k": "d", "op": "new", "v": int_json(v), "exp": e, "r": t + 1, "res": "panic", "msg": m}),
+            }
+        } else if c < 22 {
+            let f = interesting_f64(r);
+            let d = Dyadic::from(f);
+            regs[t] = d;
+            json!({"k": "d", "op": "from_f64", "f": f64_json(f), "r": t + 1, "res": "ok", "out": raw(&d)})
+        } else if c < 62 {
+            let op = if directed && step == 3 { "mul" } else if directed && (step == 4 || step == 5) { "add" } else { ["add", "sub", "mul"][r.random_range(0..3)] };
+            let (x, y) = (regs[a], regs[b]);
+            match guarded(|| match op {
+                "add" => x + y,
+                "sub" => x - y,
+                _ => x * y,
+            }) {
+                Ok(d) => {
+                    regs[t] = d;
+                    json!({"k": "d", "op": op, "a": a + 1, "b": b + 1, "r": t + 1, "res": "ok", "out": raw(&d)})
+                }
+                Err(m) => json!({"k": "d", "op": op, "a": a + 1, "b": b + 1, "r": t + 1, "res": "panic", "msg": m}),
+            }
+        } else if c < 67 {
+            let d = -regs[a];
+            regs[t] = d;
+            json!({"k": "d", "op": "neg", "a": a + 1, "r": t + 1, "res": "ok", "out": raw(&d)})
+        } else if c < 77 {
+            let o = match regs[a].cmp(&regs[b]) {
+                Ordering::Less => -1,
+                Ordering::Equal => 0,
+                Ordering::Greater => 1,
+            };
+            json!({"k": "d", "op": "cmp", "a": a + 1, "b": b + 1, "res": "ok", "ret": o, "eq": regs[a] == regs[b]})
+        } else if c < 83 {
+            match guarded(|| regs[a].abs_diff_eq(&regs[b], Dyadic::default_epsilon())) {
+                Ok(x) => json!({"k": "d", "op": "abs_diff_eq", "a": a + 1, "b": b + 1, "res": "ok", "ret": x}),
+                Err(m) => json!({"k": "d", "op": "abs_diff_eq", "a": a + 1, "b": b + 1, "res": "panic", "msg": m}),
+            }
+        } else if c < 87 {
+            json!({"k": "d", "op": "is_zero", "a": a + 1, "res": "ok", "ret": regs[a].is_zero()})
+        } else if c < 94 {
+            match guarded(|| f64::try_from(regs[a])) {
+                Ok(Ok(f)) => json!({"k": "d", "op": "to_f64", "a": a + 1, "res": "ok", "f": f64_json(f)}),
+                Ok(Err(_)) => json!({"k": "d", "op": "to_f64", "a": a + 1, "res": "range", "f": f64_json(0.0)}),
+                Err(m) => json!({"k": "d", "op": "to_f64", "a": a + 1, "res": "panic", "msg": m}),
+            }
+        } else {
+            match guarded(|| (regs[a].val_and_exp(), regs[a].val(), regs[a].exp())) {
+                Ok(((v, e), v2, e2)) => json!({"k": "d", "op": "val_and_exp", "a": a + 1, "res": "ok", "val": int_json(v), "exp": e, "consistent": v == v2 && e == e2}),
+                Err(m) => json!({"k": "d", "op": "val_and_exp", "a": a + 1, "res": "panic", "msg": m}),
+            }
+        };
+        tr.emit(ev);
+        n += 1;
+    }
+    n
+}
+
+/// a phase as a REDUCED fraction (what Rational64::new makes of it)
+fn phase_of(r: &mut StdRng) -> (i64, i64) {
+    let (n, d) = if r.random_bool(0.75) {
+        (r.random_range(-8..9), 4)
+    } else {
+        let d = [3, 5, 6, 7, 12, 16][r.random_range(0..6)];
+        (r.random_range(-2 * d..2 * d), d)
+    };
+    let q = Rational64::new(n, d);
+    (*q.numer(), *q.denom())
+}
+
+fn scalar_history(r: &mut StdRng, tr: &mut Tr, len: usize) -> usize {
+    const NR: usize = 5;
+    let mut regs: Vec<Scalar4> = vec![Scalar4::zero(); NR];
+    tr.group();
+    tr.emit(json!({"k": "begin", "machine": "scalar", "regs": NR}));
+    let mut n = 0;
+    for step in 0..len {
+        let (a, b, t) = (r.random_range(0..NR), r.random_range(0..NR), r.random_range(0..NR));
+        let c = if step < NR { r.random_range(0..20) } else { r.random_range(0..100) };
+        let put = |regs: &mut Vec<Scalar4>, t: usize, res: Result<Scalar4, String>, mut e: Value| -> Value {
+            match res {
+                Ok(s) => {
+                    regs[t] = s;
+                    e["res"] = json!("ok");
+                    e["out"] = raw4(&s);
+                }
+                Err(m) => {
+                    e["res"] = json!("panic");
+                    e["msg"] = json!(m);
+                }
+            }
+            e
+        };
+        let ev = if c < 10 {
+            let co = [interesting_i64(r) >> 34, interesting_i64(r) >> 34, r.random_range(-3..4), r.random_range(-3..4)];
+            let co = if r.random_bool(0.2) { [interesting_i64(r), 0, interesting_i64(r), 0] } else { co };
+            let p = r.random_range(-70..70);
+            put(&mut regs, t, guarded(|| Scalar4::new(co, p)), json!({"k": "s", "op": "new", "coeffs": co.iter().map(|x| int_json(*x)).collect::<Vec<_>>(), "pow": p, "r": t + 1}))
+        } else if c < 16 {
+            let (pn, pd) = phase_of(r);
+            put(&mut regs, t, guarded(|| Scalar4::from_phase(Rational64::new(pn, pd))), json!({"k": "s", "op": "from_phase", "ph": [pn, pd], "r": t + 1}))
+        } else if c < 20 {
+            let (f, g) = (interesting_f64(r), interesting_f64(r));
+            if r.random_bool(0.5) {
+                put(&mut regs, t, guarded(|| Scalar4::real(f)), json!({"k": "s", "op": "real", "f": [f64_json(f)], "r": t + 1}))
+            } else {
+                put(&mut regs, t, guarded(|| Scalar4::complex(f, g)), json!({"k": "s", "op": "complex", "f": [f64_json(f), f64_json(g)], "r": t + 1}))
+            }
+        } else if c < 55 {
+            let op = ["add", "sub", "mul", "mul"][r.random_range(0..4)];
+            let (x, y) = (regs[a], regs[b]);
+            put(&mut regs, t, guarded(|| match op {
+                "add" => x + y,
+                "sub" => x - y,
+                _ => x * y,
+            }), json!({"k": "s", "op": op, "a": a + 1, "b": b + 1, "r": t + 1}))
+        } else if c < 60 {
+            let x = regs[a];
+            put(&mut regs, t, guarded(|| x.conj()), json!({"k": "s", "op": "conj", "a": a + 1, "r": t + 1}))
+        } else if c < 68 {
+            let p = r.random_range(-9..10);
+            let x = regs[a];
+            put(&mut regs, t, guarded(|| {
+                let mut y = x;
+                y.mul_sqrt2_pow(p);
+                y
+            }), json!({"k": "s", "op": "mul_sqrt2_pow", "a": a + 1, "p": p, "r": t + 1}))
+        } else if c < 76 {
+            let (pn, pd) = phase_of(r);
+            let x = regs[a];
+            if r.random_bool(0.6) {
+                put(&mut regs, t, guarded(|| {
+                    let mut y = x;
+                    y.mul_phase(Rational64::new(pn, pd));
+                    y
+                }), json!({"k": "s", "op": "mul_phase", "a": a + 1, "ph": [pn, pd], "r": t + 1}))
+            } else {
+                put(&mut regs, t, guarded(|| Scalar4::one_plus_phase(Rational64::new(pn, pd))), json!({"k": "s", "op": "one_plus_phase", "ph": [pn, pd], "r": t + 1}))
+            }
+        } else if c < 84 {
+            json!({"k": "s", "op": "tests", "a": a + 1, "b": b + 1, "res": "ok", "is_zero": regs[a].is_zero(), "is_one": regs[a].is_one(), "eq": regs[a] == regs[b]})
+        } else if c < 92 {
+            match guarded(|| regs[a].exact_phase_and_sqrt2_pow()) {
+                Ok(Some((p, k))) => {
+                    let pr: Rational64 = p.to_rational();
+                    let units = (pr * 4).to_integer().rem_euclid(8);
+                    json!({"k": "s", "op": "exact_phase", "a": a + 1, "res": "ok", "ret": "some", "kk": units, "pp": k, "whole": (pr * 4).is_integer()})
+                }
+                Ok(None) => json!({"k": "s", "op": "exact_phase", "a": a + 1, "res": "ok", "ret": "none", "kk": 0, "pp": 0, "whole": true}),
+                Err(m) => json!({"k": "s", "op": "exact_phase", "a": a + 1, "res": "panic", "msg": m}),
+            }
+        } else {
+            match guarded(|| regs[a].complex_value()) {
+                Ok(z) => {
+                    // from-float round trip: Scalar4::from(complex) converted back must be the same doubles
+                    let back: Complex<f64> = Scalar4::from(z).complex_value();
+                    json!({"k": "s", "op": "complex_value", "a": a + 1, "res": "ok", "re": f64_json(z.re), "im": f64_json(z.im), "roundtrip": back == z || (z.re.is_nan() || z.im.is_nan())})
+                }
+                Err(m) => json!({"k": "s", "op": "complex_value", "a": a + 1, "res": "panic", "msg": m}),
+            }
+        };
+        tr.emit(ev);
+        n += 1;
+    }
+    let _ = (Scalar4::one(), Scalar4::sqrt2_pow(0), Phase::zero());
+    n
+}
+
 pub fn record(args: &[String], seed: u64, tr: &mut Tr) -> Value {
-    json!({"stub": true})
+    let nd: usize = arg_num(args, "--dyadic", 20);
+    let ns: usize = arg_num(args, "--scalar", 20);
+    let len: usize = arg_num(args, "--len", 60);
+    let mut r = crate::gens::rng(seed);
+    let (mut od, mut os) = (0, 0);
+    for _ in 0..nd {
+        od += dyadic_history(&mut r, tr, len);
+    }
+    for _ in 0..ns {
+        os += scalar_history(&mut r, tr, len);
+    }
+    json!({"dyadic_histories": nd, "dyadic_ops": od, "scalar_histories": ns, "scalar_ops": os})
 }
